@@ -1,12 +1,18 @@
 #!/usr/bin/env python3
 # Regenerates /verif/MANIFEST.json from tools/claims.json (claimed checks) and tools/not_applicable.json.
-import json,os,subprocess
+import json,os,re,subprocess
 root=os.path.dirname(os.path.dirname(os.path.abspath(__file__)))
 claims=json.load(open(os.path.join(root,'tools','claims.json')))
 na=json.load(open(os.path.join(root,'tools','not_applicable.json')))
 props=[json.loads(l)['id'] for l in open(os.path.join(root,'properties.jsonl'))]
 hooks=subprocess.run(['git','-C','/repo','log','--format=%h %s'],capture_output=True,text=True).stdout.splitlines()
-hook_commits=[l.split()[0] for l in hooks if l.split(' ',1)[1].startswith('verif:')]
+# hook commits: 'verif:' commits, plus the driver's end-of-round commits of then-uncommitted contract files
+# ('round N: uncommitted hook changes (driver)') when they are not empty; all of them touch only zz_verif_contracts.go
+def nonempty(h):
+    files=subprocess.run(['git','-C','/repo','show','--format=','--name-only',h],capture_output=True,text=True).stdout.split()
+    return len(files)>0 and all(f.endswith('zz_verif_contracts.go') for f in files)
+hook_commits=[l.split()[0] for l in hooks if l.split(' ',1)[1].startswith('verif:')
+              or (re.match(r'round \d+: uncommitted hook changes',l.split(' ',1)[1]) and nonempty(l.split()[0]))]
 checks=[]
 for pid in props:
     if pid not in claims: continue
